@@ -315,6 +315,8 @@ def match_known(known, pid, case):
             continue
         if k.get("impl_regex") and not re.search(k["impl_regex"], impl):
             continue
+        if k.get("spec_regex") and not re.search(k["spec_regex"], spec):
+            continue
         return k
     return None
 
